@@ -76,3 +76,15 @@ Theorem C11_never_beyond_max_history : forall a0 p a t,
   a_end (data a) <= maxPages a0 /\ a_end (meta a) <= maxPages a0 /\ maxPages a = maxPages a0.
 Proof. exact never_beyond_max_history. Qed.
 Print Assumptions C11_never_beyond_max_history.
+
+(* pages and bytes: the page count of a bounded file (readAllocatorState) is the number of COMPLETE pages below
+   the maximum size - every file within that count is within the maximum size in bytes, one page more is not;
+   the count rounded up (seeded change C11j) is refuted *)
+Theorem C11_max_pages_within_size : forall maxSize ps endp,
+  0 < ps -> 0 < maxSize -> 0 <= endp <= max_pages_of maxSize ps -> endp * ps <= maxSize.
+Proof. exact max_pages_within_size. Qed.
+Print Assumptions C11_max_pages_within_size.
+Theorem C11_max_pages_largest : forall maxSize ps, 0 < ps -> 0 < maxSize -> (max_pages_of maxSize ps + 1) * ps > maxSize.
+Proof. exact max_pages_largest. Qed.
+Theorem C11_max_pages_rounded_up_refuted : exists maxSize ps, 0 < ps /\ 0 < maxSize /\ max_pages_ceil maxSize ps * ps > maxSize.
+Proof. exact max_pages_ceil_refuted. Qed.
